@@ -22,6 +22,31 @@ CHECKS = {
             'Trusted: NumPy as reference model; the payload alphabet (values are a function of colour and position); '
             'Lmax bound (3 quick, up to 5 thorough). Checkpoint/restore fidelity is validated by from-scratch replays.',
             'DESIGN.md section 4 C03, 3.3'),
+    'C02': ('opgraph', 'model_checking', E1,
+            'Every distinct reachable state of Array graphs (C03 alphabet + metadata ops + overwrite=True re-creation, also '
+            'after diverged/rejected calls) is decoded by a reader that shares no code with Darr and compared with the '
+            'model and with a fresh Darr handle; plus the exhaustive 24-pair x 3-rank type table in both directions.',
+            'Trusted: my reading of docs/design.rst in dv/decoder.py (self-tested against ndarray.tofile and examplearrays/); '
+            'NumPy frombuffer/reshape; bounds Lmax 2 (quick) / 3 (thorough).',
+            'DESIGN.md section 4 C02, 3.1'),
+    'C04': ('opgraph', 'model_checking', E1,
+            'Fixpoint exploration of RaggedArray graphs (4-5 creation routes, atoms (), (2,), (2,3)/(2,1), 7 index types) '
+            'against a list-of-ndarrays model; in every state len/narrays/atom/dtype/size, ra[k] for all k in [-len-1, len], '
+            'non-integer indices, 36 iter_arrays parameter triples and the stored index type are compared on the live and on a fresh handle.',
+            'Trusted: Python list slicing / NumPy as reference; payload alphabet; Nmax bound (3 quick, up to 5 thorough).',
+            'DESIGN.md section 4 C04'),
+    'C05': ('opgraph', 'model_checking', E1,
+            'The C04 graphs with the independent ragged decoder as state invariant (also after rejected calls): both sub-arrays '
+            'well-formed, index contiguity, integer index type, top-level len/size/atom/numtype/darrobject, decoded subarrays == model == Darr.',
+            'Trusted: dv/decoder.py as the documented format; same bounds as C04.',
+            'DESIGN.md section 4 C05'),
+    'C08': ('opgraph', 'model_checking', E1,
+            'Every distinct state of Array graphs (append/truncate/assign/metadata create-change-delete/re-creation/copy) and of '
+            'RaggedArray graphs with up to 7-8 subarrays and with metadata: README.txt (also values/ and indices/) must equal the text '
+            'Darr generates from a fresh handle, and labelled lines are checked against independently decoded facts.',
+            'Trusted: readcodetxt() of a freshly opened handle as "the documentation Darr generates for the current on-disk state"; '
+            'the semantic line checks are wording-tolerant (skipped when a label is absent).',
+            'DESIGN.md section 4 C08'),
 }
 
 NOT_YET = {
